@@ -39,7 +39,7 @@ import (
 	"verifh/vsys"
 )
 
-var tTotal, tDriver, tShip, nViaDisk int64
+var nViaDisk int64
 
 var profFlag = flag.String("cpuprofile", "", "write a CPU profile")
 
@@ -366,7 +366,7 @@ func main() {
 		overBudget    int32
 		familyCount   = ev.NewCounter()
 		graphs        = ev.NewCounter() // distinct canonical graphs
-		mech          = ev.NewCounter() // mechanisms exercised
+		mech          = &caseCounter{m: map[string]int{}} // mechanisms exercised: number of cases each
 		noteCounter   = ev.NewCounter()
 		nontrivialMu  sync.Mutex
 		nontrivialSet = map[string]bool{}
@@ -402,8 +402,6 @@ func main() {
 			}
 		}
 		// A
-		t0 := time.Now()
-		defer func() { atomic.AddInt64(&tTotal, int64(time.Since(t0))) }()
 		a, err := buildCase(c, prefix)
 		if err != nil {
 			violate(cs, "driver-compile-error", "the driver cannot build/compile the program", err.Error())
@@ -442,6 +440,8 @@ func main() {
 		// mechanisms (vacuity)
 		all, _ := reach(roots)
 		names := map[string]bool{}
+		mech := &localMech{global: mech, seen: map[string]bool{}}
+		defer mech.flush()
 		for _, t := range all {
 			if len(t.Group) > 0 {
 				mech.Add("shuffle-group")
@@ -522,9 +522,6 @@ func main() {
 			cs.lookups = append(cs.lookups, t.Name)
 			cs.lines = append(cs.lines, taskLine(a.ord, t))
 		}
-		atomic.AddInt64(&tDriver, int64(time.Since(t0)))
-		t1 := time.Now()
-		defer func() { atomic.AddInt64(&tShip, int64(time.Since(t1))) }()
 		d := exec.VerifC08NewDriver()
 		job := &Job{ID: i, MC: c.MC, Top: a.invs[last].Index(), Ord: a.ord, Lookups: cs.lookups}
 		for s := range a.invs {
@@ -557,7 +554,6 @@ func main() {
 		checkReply(cs, "C-worker-inprocess", workerCompileCopy(job), compare, violate)
 	})
 
-	fmt.Fprintf(os.Stderr, "phase1: total %v driver-part %v ship+worker %v elapsed %v\n", time.Duration(tTotal), time.Duration(tDriver), time.Duration(tShip), r.Elapsed())
 	// ---- phase 2: two separately started child processes ------------------------------
 	var jobs []*Job
 	for _, cs := range states {
@@ -637,13 +633,9 @@ func main() {
 	for _, c := range cases {
 		fams[c.Family]++
 	}
-	mechs := map[string]int64{}
-	for _, k := range mech.Keys() {
-		mechs[k] = 0
-	}
 	pprof.StopCPUProfile()
 	r.Note("families (cases enumerated): %v", famSummary(fams))
-	r.Note("mechanisms seen in driver graphs (distinct kinds): %v", mech.Keys())
+	r.Note("mechanisms: number of cases whose driver graph / run exercised each: %v", mech.String())
 	r.Note("observations outside the statement (not violations), by class: %v", noteCounter.Keys())
 	r.Finish(ev.Coverage{
 		"evaluations":              atomic.LoadInt64(&evaluations),
@@ -659,6 +651,41 @@ func main() {
 		"violating_signatures":     len(col.first),
 		"families":                 len(fams),
 	})
+}
+
+// caseCounter counts, per mechanism, the number of cases that exercised it.
+type caseCounter struct {
+	mu sync.Mutex
+	m  map[string]int
+}
+
+func (c *caseCounter) String() string {
+	c.mu.Lock()
+	defer c.mu.Unlock()
+	var ks []string
+	for k := range c.m {
+		ks = append(ks, k)
+	}
+	sort.Strings(ks)
+	var out []string
+	for _, k := range ks {
+		out = append(out, fmt.Sprintf("%s=%d", k, c.m[k]))
+	}
+	return strings.Join(out, " ")
+}
+
+type localMech struct {
+	global *caseCounter
+	seen   map[string]bool
+}
+
+func (l *localMech) Add(k string) { l.seen[k] = true }
+func (l *localMech) flush() {
+	l.global.mu.Lock()
+	for k := range l.seen {
+		l.global.m[k]++
+	}
+	l.global.mu.Unlock()
 }
 
 func famSummary(f map[string]int) string {
